@@ -39,6 +39,7 @@ package graph
 //@ func DependencyGraph.Size
 //@   monitor[C19,C05,C06] wf: wf(g)
 //@   monitor[C19,C06] sort_cache: cacheOK(g)
+//@   monitor[C06,C19] sort_order by(sort_order) each_return: sortOrderOK(g)
 //@   monitor[C05,C19] cycle_cache by(cycle_cache) each_return: cycleCacheSound(g)
 //@   ensures[C19] size: result == len(g.nodes)
 //@   ensures[C19] unchanged: g.nodes == old(g.nodes) && g.edges == old(g.edges) && wf(g)
@@ -46,12 +47,14 @@ package graph
 //@ func DependencyGraph.HasNode
 //@   monitor[C19,C05,C06] wf: wf(g)
 //@   monitor[C19,C06] sort_cache: cacheOK(g)
+//@   monitor[C06,C19] sort_order by(sort_order) each_return: sortOrderOK(g)
 //@   monitor[C05,C19] cycle_cache by(cycle_cache) each_return: cycleCacheSound(g)
 //@   ensures[C19] member: result <==> (mk("NodeKey", serviceType, key, group) in g.nodes)
 //
 //@ func DependencyGraph.GetNode
 //@   monitor[C19,C05,C06] wf: wf(g)
 //@   monitor[C19,C06] sort_cache: cacheOK(g)
+//@   monitor[C06,C19] sort_order by(sort_order) each_return: sortOrderOK(g)
 //@   monitor[C05,C19] cycle_cache by(cycle_cache) each_return: cycleCacheSound(g)
 //@   ensures[C19] present: (mk("NodeKey", serviceType, key, group) in g.nodes) ==> result == g.nodes[mk("NodeKey", serviceType, key, group)] && result != nil
 //@   ensures[C19] absent: !(mk("NodeKey", serviceType, key, group) in g.nodes) ==> result == nil
@@ -69,6 +72,7 @@ package graph
 //@ func DependencyGraph.AddProviderDeferred
 //@   monitor[C19,C05,C06] wf: wf(g)
 //@   monitor[C19,C06] sort_cache: cacheOK(g)
+//@   monitor[C06,C19] sort_order by(sort_order) each_return: sortOrderOK(g)
 //@   monitor[C05,C19] cycle_cache by(cycle_cache) each_return: cycleCacheSound(g)
 //@   requires deps_nonnil: forall i int :: 0 <= i && i < len(depsOf(provider)) ==> depsOf(provider)[i] != nil
 //@   ensures[C19] nil_rejected: provider == nil ==> result != nil && g.nodes == old(g.nodes) && g.edges == old(g.edges) && wf(g)
@@ -102,6 +106,13 @@ package graph
 //@ pred s3(g *DependencyGraph) = forall k NodeKey :: k in g.nodes ==> g.nodes[k] != nil && g.nodes[k].Key == k
 //
 // updateDegrees recomputes the derived per-node fields from E.
+// m matches every entry of a Dependents list with the edge occurrence it was recorded for: entry j of nodes[c].Dependents (source u)
+// stands for position m[c][j] of edges[u], which holds c; two entries of one list with the same source stand for different positions
+//@ pred matchOK(g *DependencyGraph, m fmap[NodeKey]fmap[int]int) = forall c NodeKey, j int :: c in g.nodes && 0 <= j && j < len(g.nodes[c].Dependents) ==>
+//@      0 <= m[c][j] && m[c][j] < len(g.edges[g.nodes[c].Dependents[j]]) && g.edges[g.nodes[c].Dependents[j]][m[c][j]] == c
+//@ pred matchInj(g *DependencyGraph, m fmap[NodeKey]fmap[int]int) = forall c NodeKey, j int, j2 int :: c in g.nodes && 0 <= j && j < j2 && j2 < len(g.nodes[c].Dependents)
+//@      && g.nodes[c].Dependents[j] == g.nodes[c].Dependents[j2] ==> m[c][j] < m[c][j2]
+//@ pred matched(g *DependencyGraph) = exists m fmap[NodeKey]fmap[int]int :: matchOK(g, m) && matchInj(g, m)
 //@ func DependencyGraph.updateDegrees
 //@   requires maps: g != nil && g.nodes != nil && g.edges != nil
 //@   requires s3: s3(g)
@@ -115,6 +126,10 @@ package graph
 //@        (g.nodes[k].Dependents[i] in g.edges) && (g.nodes[k].Dependents[i] in g.nodes) && occurs(k, g.edges[g.nodes[k].Dependents[i]])
 //@   ensures[C19,C06] dependents_complete: forall f NodeKey, i int :: f in g.edges && f in g.nodes && 0 <= i && i < len(g.edges[f]) && (g.edges[f][i] in g.nodes)
 //@        ==> occurs(f, g.nodes[g.edges[f][i]].Dependents)
+//@   ghost M fmap[NodeKey]fmap[int]int
+//@   exports M
+//@   at after assign toNode.Dependents#1 : ghost M[to] := store(M[to], len(toNode.Dependents) - 1, idx)
+//@   ensures[C06,C19] dependents_matched_with_edge_occurrences: matchOK(g, M) && matchInj(g, M)
 //@   loop 1
 //@     invariant reset: forall k NodeKey :: k in g.nodes && seen[k] ==> g.nodes[k].InDegree == 0 && g.nodes[k].OutDegree == 0 && len(g.nodes[k].Dependents) == 0
 //@     invariant deps_same: forall k NodeKey :: k in g.nodes ==> g.nodes[k].Dependencies == old(g.nodes[k].Dependencies)
@@ -128,15 +143,20 @@ package graph
 //@        (g.nodes[k].Dependents[i] in g.edges) && (g.nodes[k].Dependents[i] in g.nodes) && seen[g.nodes[k].Dependents[i]] && occurs(k, g.edges[g.nodes[k].Dependents[i]])
 //@     invariant dependents_complete: forall f NodeKey, i int :: f in g.edges && f in g.nodes && seen[f] && 0 <= i && i < len(g.edges[f]) && (g.edges[f][i] in g.nodes)
 //@        ==> occurs(f, g.nodes[g.edges[f][i]].Dependents)
+//@     invariant match_ok: matchOK(g, M)
+//@     invariant match_inj: matchInj(g, M)
 //@   loop 3
+//@     invariant match_ok: matchOK(g, M)
+//@     invariant match_inj: matchInj(g, M)
+//@     invariant match_cur_below: forall c NodeKey, j int :: c in g.nodes && 0 <= j && j < len(g.nodes[c].Dependents) && g.nodes[c].Dependents[j] == from ==> M[c][j] < idx
 //@     invariant deps_done: forall k NodeKey, i int :: k in g.edges && k in g.nodes && (seen[k] || k == from) ==> len(g.nodes[k].Dependencies) == len(g.edges[k])
 //@        && (0 <= i && i < len(g.edges[k]) ==> g.nodes[k].Dependencies[i] == g.edges[k][i])
 //@     invariant out_done: forall k NodeKey :: k in g.nodes ==> g.nodes[k].OutDegree == ite(k in g.edges && (seen[k] || k == from), len(g.edges[k]), 0)
 //@     invariant deps_same: forall k NodeKey :: k in g.nodes && !(k in g.edges && (seen[k] || k == from)) ==> g.nodes[k].Dependencies == old(g.nodes[k].Dependencies)
 //@     invariant indeg: forall k NodeKey :: k in g.nodes ==> g.nodes[k].InDegree == len(g.nodes[k].Dependents)
-//@     invariant dependents_sound: forall k NodeKey, i int :: k in g.nodes && 0 <= i && i < len(g.nodes[k].Dependents) ==>
+//@     invariant dependents_sound by(dependents_sound, cur, s3): forall k NodeKey, i int :: k in g.nodes && 0 <= i && i < len(g.nodes[k].Dependents) ==>
 //@        (g.nodes[k].Dependents[i] in g.edges) && (g.nodes[k].Dependents[i] in g.nodes) && (seen[g.nodes[k].Dependents[i]] || g.nodes[k].Dependents[i] == from) && occurs(k, g.edges[g.nodes[k].Dependents[i]])
-//@     invariant dependents_complete_seen: forall f NodeKey, i int :: f in g.edges && f in g.nodes && seen[f] && 0 <= i && i < len(g.edges[f]) && (g.edges[f][i] in g.nodes)
+//@     invariant dependents_complete_seen by(dependents_complete_seen, dependents_complete, cur, s3): forall f NodeKey, i int :: f in g.edges && f in g.nodes && seen[f] && 0 <= i && i < len(g.edges[f]) && (g.edges[f][i] in g.nodes)
 //@        ==> occurs(f, g.nodes[g.edges[f][i]].Dependents)
 //@     invariant dependents_complete_cur: forall i int :: 0 <= i && i < idx && (tos[i] in g.nodes) ==> occurs(from, g.nodes[tos[i]].Dependents)
 //@     invariant cur: from in g.edges && from in g.nodes && !seen[from] && tos == g.edges[from] && fromNode == g.nodes[from]
@@ -148,6 +168,7 @@ package graph
 //@ func DependencyGraph.RemoveProvider
 //@   monitor[C19,C05,C06] wf: wf(g)
 //@   monitor[C19,C06] sort_cache: cacheOK(g)
+//@   monitor[C06,C19] sort_order by(sort_order) each_return: sortOrderOK(g)
 //@   monitor[C05,C19] cycle_cache by(cycle_cache) each_return: cycleCacheSound(g)
 //@   let tgt = mk("NodeKey", serviceType, key, group)
 //@   ensures[C19] absent_noop: !old(tgt in g.nodes) ==> g.nodes == old(g.nodes) && g.edges == old(g.edges)
@@ -185,6 +206,7 @@ package graph
 //@ func DependencyGraph.GetDependencies
 //@   monitor[C19,C05,C06] wf: wf(g)
 //@   monitor[C19,C06] sort_cache: cacheOK(g)
+//@   monitor[C06,C19] sort_order by(sort_order) each_return: sortOrderOK(g)
 //@   monitor[C05,C19] cycle_cache by(cycle_cache) each_return: cycleCacheSound(g)
 //@   requires mirror: mirror(g)
 //@   let q = mk("NodeKey", serviceType, key, group)
@@ -195,6 +217,7 @@ package graph
 //@ func DependencyGraph.GetDependents
 //@   monitor[C19,C05,C06] wf: wf(g)
 //@   monitor[C19,C06] sort_cache: cacheOK(g)
+//@   monitor[C06,C19] sort_order by(sort_order) each_return: sortOrderOK(g)
 //@   monitor[C05,C19] cycle_cache by(cycle_cache) each_return: cycleCacheSound(g)
 //@   let q = mk("NodeKey", serviceType, key, group)
 //@   ensures[C19] absent: !(q in g.nodes) ==> isnil(result)
@@ -346,6 +369,7 @@ package graph
 //@ func DependencyGraph.DetectCycles
 //@   monitor[C19,C05,C06] wf: wf(g)
 //@   monitor[C19,C06] sort_cache: cacheOK(g)
+//@   monitor[C06,C19] sort_order by(sort_order) each_return: sortOrderOK(g)
 //@   monitor[C05,C19] cycle_cache by(cache_sound_after_cached_answer, cache_sound_kept, cache_sound_on_new_cycle, cache_sound_after_full_search): cycleCacheSound(g)
 //@   modifies map[NodeKey]bool, CircularDependencyError.Node, CircularDependencyError.Path, alloc, Node.InDegree, Node.OutDegree, Node.Dependents, Node.Dependencies, Node.Visited, Node.Visiting, DependencyGraph.cycleCache, DependencyGraph.cycleCacheDirty
 //@   safety[C15,C05]
@@ -359,6 +383,9 @@ package graph
 //@   ensures[C05,C19] nil_means_acyclic by(acyclic_after_full_search, acyclic_by_clean_cache, cached_cycle_found_again): result == nil ==> acyclic(g)
 //@   ensures[C05,C19] cache_clean: !g.cycleCacheDirty
 //@   ensures[C06,C19] degrees_fresh: dependentsOK(g)
+//@   ensures[C06,C19] degrees_matched by(degrees_matched_after_refresh): matched(g)
+//@   ensures[C06,C19] deps_mirror_edges: depsMirrorEdges(g)
+//@   at after call g.updateDegrees#1 : exhibit[C06] degrees_matched_after_refresh by(dependents_matched_with_edge_occurrences): m := ghostof("updateDegrees", "M") :: matched(g)
 //@   ensures[C06,C19] sort_cache_untouched: g.sortedNodesDirty == old(g.sortedNodesDirty) && g.sortedNodes == old(g.sortedNodes)
 //@   ensures[C06,C19] providers_kept: forall k NodeKey :: (k in g.nodes) ==> g.nodes[k] == old(g.nodes[k]) && g.nodes[k].Provider == old(g.nodes[k].Provider)
 // cached answer "cyclic": the node cached as cyclic lies on a cycle, so the repeated search from it cannot come back empty
@@ -396,6 +423,7 @@ package graph
 //@ func DependencyGraph.IsAcyclic
 //@   monitor[C19,C05,C06] wf: wf(g)
 //@   monitor[C19,C06] sort_cache: cacheOK(g)
+//@   monitor[C06,C19] sort_order by(sort_order) each_return: sortOrderOK(g)
 //@   monitor[C05,C19] cycle_cache by(cycle_cache) each_return: cycleCacheSound(g)
 //@   modifies map[NodeKey]bool, CircularDependencyError.Node, CircularDependencyError.Path, alloc, Node.InDegree, Node.OutDegree, Node.Dependents, Node.Dependencies, Node.Visited, Node.Visiting, DependencyGraph.cycleCache, DependencyGraph.cycleCacheDirty
 //@   ensures[C05,C19] graph_unchanged: g.nodes == old(g.nodes) && g.edges == old(g.edges) && wf(g)
@@ -403,6 +431,7 @@ package graph
 //@ func DependencyGraph.AddProvider
 //@   monitor[C19,C05,C06] wf: wf(g)
 //@   monitor[C19,C06] sort_cache: cacheOK(g)
+//@   monitor[C06,C19] sort_order by(sort_order) each_return: sortOrderOK(g)
 //@   monitor[C05,C19] cycle_cache by(cycle_cache) each_return: cycleCacheSound(g)
 //@   requires deps_nonnil: forall i int :: 0 <= i && i < len(depsOf(provider)) ==> depsOf(provider)[i] != nil
 //@   safety[C15,C19]
@@ -445,6 +474,7 @@ package graph
 //@ func DependencyGraph.GetRoots
 //@   monitor[C19,C05,C06] wf: wf(g)
 //@   monitor[C19,C06] sort_cache: cacheOK(g)
+//@   monitor[C06,C19] sort_order by(sort_order) each_return: sortOrderOK(g)
 //@   monitor[C05,C19] cycle_cache by(cycle_cache) each_return: cycleCacheSound(g)
 //@   ensures[C19] sound: forall i int :: 0 <= i && i < len(result) ==> result[i] != nil && result[i].InDegree == 0 && (result[i].Key in g.nodes) && g.nodes[result[i].Key] == result[i]
 //@   ensures[C19] complete: forall k NodeKey :: k in g.nodes && g.nodes[k].InDegree == 0 ==> occursN(g.nodes[k], result)
@@ -456,6 +486,7 @@ package graph
 //@ func DependencyGraph.GetLeaves
 //@   monitor[C19,C05,C06] wf: wf(g)
 //@   monitor[C19,C06] sort_cache: cacheOK(g)
+//@   monitor[C06,C19] sort_order by(sort_order) each_return: sortOrderOK(g)
 //@   monitor[C05,C19] cycle_cache by(cycle_cache) each_return: cycleCacheSound(g)
 //@   ensures[C19] sound: forall i int :: 0 <= i && i < len(result) ==> result[i] != nil && result[i].OutDegree == 0 && (result[i].Key in g.nodes) && g.nodes[result[i].Key] == result[i]
 //@   ensures[C19] complete: forall k NodeKey :: k in g.nodes && g.nodes[k].OutDegree == 0 ==> occursN(g.nodes[k], result)
@@ -464,32 +495,120 @@ package graph
 //@     invariant sound: !isnil(leaves) && (forall i int :: 0 <= i && i < len(leaves) ==> leaves[i] != nil && leaves[i].OutDegree == 0 && (leaves[i].Key in g.nodes) && g.nodes[leaves[i].Key] == leaves[i] && seen[leaves[i].Key])
 //@     invariant complete: forall k NodeKey :: k in g.nodes && seen[k] && g.nodes[k].OutDegree == 0 ==> occursN(g.nodes[k], leaves)
 //
+// ---- Kahn's algorithm ---------------------------------------------------------------------------------------------
+// Ghost reading of TopologicalSort. Every occurrence (k, i) of a dependency in nodes[k].Dependencies is either still
+// counted in depCounts[k] or "discharged": P[k][i], set when the Dependents entry matched with it (m, see matchOK) was
+// walked while its target was being placed; D[k][i] remembers which entry that was. S[k] are the prefix counts of the
+// occurrences not yet discharged, so depCounts[k] = S[k][len]. placed = set of nodes appended to result, pos = their index,
+// enq = set of nodes ever put into the queue.
+//@ pred depsMirrorEdges(g *DependencyGraph) = forall k NodeKey, i int :: k in g.edges && k in g.nodes ==> len(g.nodes[k].Dependencies) == len(g.edges[k])
+//@      && (0 <= i && i < len(g.edges[k]) ==> g.nodes[k].Dependencies[i] == g.edges[k][i])
+//@ pred kahnPrefix(g *DependencyGraph, S fmap[NodeKey]fmap[int]int, P fmap[NodeKey]fmap[int]bool) = forall k NodeKey, t int :: k in g.nodes ==> S[k][0] == 0
+//@      && (0 <= t && t < len(g.nodes[k].Dependencies) ==> S[k][t+1] == S[k][t] + ite(P[k][t], 0, 1))
+//@ pred kahnMono(g *DependencyGraph, S fmap[NodeKey]fmap[int]int) = forall k NodeKey, a int, b int :: k in g.nodes && 0 <= a && a <= b && b <= len(g.nodes[k].Dependencies) ==> 0 <= S[k][a] && S[k][a] <= S[k][b]
+//@ pred kahnCounts(g *DependencyGraph, depCounts map[NodeKey]int, S fmap[NodeKey]fmap[int]int) = forall k NodeKey :: k in g.nodes ==> (k in depCounts) && depCounts[k] == S[k][len(g.nodes[k].Dependencies)]
+// a discharged occurrence points at a placed node and was discharged by one entry of that node's Dependents list (an entry below lim while cur is being placed)
+//@ pred kahnDischarged(g *DependencyGraph, P fmap[NodeKey]fmap[int]bool, D fmap[NodeKey]fmap[int]int, m fmap[NodeKey]fmap[int]int, placed set[NodeKey]) =
+//@      forall k NodeKey, i int :: k in g.nodes && 0 <= i && i < len(g.nodes[k].Dependencies) && P[k][i] ==> placed[g.nodes[k].Dependencies[i]] && (g.nodes[k].Dependencies[i] in g.nodes)
+//@        && 0 <= D[k][i] && D[k][i] < len(g.nodes[g.nodes[k].Dependencies[i]].Dependents) && g.nodes[g.nodes[k].Dependencies[i]].Dependents[D[k][i]] == k
+//@        && m[g.nodes[k].Dependencies[i]][D[k][i]] == i
+//@ pred kahnCurBelow(g *DependencyGraph, P fmap[NodeKey]fmap[int]bool, D fmap[NodeKey]fmap[int]int, cur NodeKey, lim int) =
+//@      forall k NodeKey, i int :: k in g.nodes && 0 <= i && i < len(g.nodes[k].Dependencies) && P[k][i] && g.nodes[k].Dependencies[i] == cur ==> D[k][i] < lim
+//@ pred kahnPlaced(g *DependencyGraph, result []*Node, placed set[NodeKey], pos fmap[NodeKey]int) =
+//@      (forall p int :: 0 <= p && p < len(result) ==> result[p] != nil && (result[p].Key in g.nodes) && g.nodes[result[p].Key] == result[p] && placed[result[p].Key] && pos[result[p].Key] == p)
+//@   && (forall k NodeKey :: placed[k] ==> (k in g.nodes) && 0 <= pos[k] && pos[k] < len(result) && result[pos[k]] == g.nodes[k])
+//@ pred kahnQueue(g *DependencyGraph, queue []NodeKey, depCounts map[NodeKey]int, enq set[NodeKey], placed set[NodeKey]) =
+//@      (forall a int :: 0 <= a && a < len(queue) ==> (queue[a] in g.nodes) && enq[queue[a]] && !placed[queue[a]])
+//@   && (forall a int, b int :: 0 <= a && a < b && b < len(queue) ==> queue[a] != queue[b])
+//@   && (forall k NodeKey :: enq[k] ==> (k in g.nodes) && depCounts[k] == 0)
+//@   && (forall k NodeKey :: placed[k] ==> enq[k])
+// every dependency of a placed node was placed before it
+//@ pred kahnOrdered(result []*Node, pos fmap[NodeKey]int, placed set[NodeKey]) = forall p int, x int :: 0 <= p && p < len(result) && 0 <= x && x < len(result[p].Dependencies) ==>
+//@      placed[result[p].Dependencies[x]] && pos[result[p].Dependencies[x]] < p
+//
+// res lists nodes so that every dependency (edge) of a listed node is listed before it, and no node twice: rk is the position of each listed key
+//@ pred rankedList(g *DependencyGraph, res []*Node, rk fmap[NodeKey]int) = (forall p int :: 0 <= p && p < len(res) ==> res[p] != nil && rk[res[p].Key] == p)
+//@   && (forall p int, x int :: 0 <= p && p < len(res) && 0 <= x && x < len(g.edges[res[p].Key]) ==>
+//@        0 <= rk[g.edges[res[p].Key][x]] && rk[g.edges[res[p].Key][x]] < p && res[rk[g.edges[res[p].Key][x]]].Key == g.edges[res[p].Key][x])
+//@ pred sortedByEdges(g *DependencyGraph, res []*Node) = exists rk fmap[NodeKey]int :: rankedList(g, res, rk)
+// a topological order marked clean is one
+//@ pred sortOrderOK(g *DependencyGraph) = (!g.sortedNodesDirty && !isnil(g.sortedNodes)) ==> sortedByEdges(g, g.sortedNodes)
 //@ func DependencyGraph.TopologicalSort
 //@   monitor[C19,C05,C06] wf: wf(g)
 //@   monitor[C19,C06] sort_cache: cacheOK(g)
+//@   monitor[C06,C19] sort_order by(sort_order, fresh_result_is_sorted) each_return: sortOrderOK(g)
 //@   monitor[C05,C19] cycle_cache by(cycle_cache) each_return: cycleCacheSound(g)
 //@   modifies DependencyGraph.sortedNodes, DependencyGraph.sortedNodesDirty, alloc
 //@   safety[C15,C06]
+//@   requires degrees_fresh: dependentsOK(g)
+//@   requires degrees_matched: matched(g)
+//@   requires deps_mirror_edges: depsMirrorEdges(g)
+//@   ghost ID fmap[int]int = mapof t int :: t
+//@   ghost S fmap[NodeKey]fmap[int]int = mapof k NodeKey :: ID
+//@   ghost P fmap[NodeKey]fmap[int]bool
+//@   ghost D fmap[NodeKey]fmap[int]int
+//@   ghost pos fmap[NodeKey]int
+//@   ghost placed set[NodeKey]
+//@   ghost enq set[NodeKey]
+//@   at entry : obtain[C06] m fmap[NodeKey]fmap[int]int by(degrees_matched) :: matchOK(g, m) && matchInj(g, m)
+//@   at after assign queue#2 : ghost enq[key] := true
+//@   at after assign result#3 : ghost placed[current] := true
+//@   at after assign result#3 : ghost pos[current] := len(result) - 1
+//@   at before assign depCounts[dependent]#1 : assert[C06] entry_stands_for_an_occurrence by(m_exists, degrees_fresh, deps_mirror_edges, cur, wf): (dependent in g.nodes) && 0 <= m[current][idx]
+//@        && m[current][idx] < len(g.nodes[dependent].Dependencies) && g.nodes[dependent].Dependencies[m[current][idx]] == current
+//@   at before assign depCounts[dependent]#1 : assert[C06] occurrence_not_yet_discharged by(entry_stands_for_an_occurrence, discharged, discharged_for_current, m_exists, cur): !P[dependent][m[current][idx]]
+//@   at before assign depCounts[dependent]#1 : assert[C06] count_still_positive by(counts, prefix, mono, entry_stands_for_an_occurrence, occurrence_not_yet_discharged): depCounts[dependent] >= 1
+//@   at before assign depCounts[dependent]#1 : assert[C06] dependent_not_yet_queued by(count_still_positive, queued): !enq[dependent] && !placed[dependent]
+//@   at after assign depCounts[dependent]#1 : ghost S[dependent] := mapof t int :: S[dependent][t] - ite(t > m[current][idx], 1, 0)
+//@   at after assign depCounts[dependent]#1 : ghost P[dependent] := store(P[dependent], m[current][idx], true)
+//@   at after assign depCounts[dependent]#1 : ghost D[dependent] := store(D[dependent], m[current][idx], idx)
+//@   at after assign queue#4 : ghost enq[dependent] := true
 //@   ensures[C06,C19] graph_unchanged: g.nodes == old(g.nodes) && g.edges == old(g.edges) && wf(g)
 //@   ensures[C06,C15] value_xor_error: (result1 == nil) ==> !isnil(result0)
 //@   ensures[C06,C15] error_has_no_order: (result1 != nil) ==> isnil(result0)
 //@   ensures[C06,C19] only_nodes_listed: forall i int :: 0 <= i && i < len(result0) ==> result0[i] != nil && (result0[i].Key in g.nodes) && g.nodes[result0[i].Key] == result0[i]
 //@   ensures[C06,C19] every_node_counted: result1 == nil ==> len(result0) == len(g.nodes)
-//@   requires degrees_fresh: dependentsOK(g)
+//@   ensures[C06,C19] dependencies_first_each_node_once by(returned_fresh_order_is_sorted, returned_cached_order_is_sorted) each_return: result1 == nil ==> sortedByEdges(g, result0)
+//@   at after return#1 : exhibit[C06] returned_cached_order_is_sorted by(cached_order_is_sorted): rk := rk0 :: sortedByEdges(g, result0)
+//@   at after return#3 : exhibit[C06] returned_fresh_order_is_sorted by(fresh_order_is_sorted): rk := pos :: sortedByEdges(g, result0)
+//@   at before return#1 : obtain[C06] rk0 fmap[NodeKey]int by(sort_order) :: rankedList(g, g.sortedNodes, rk0)
+//@   at before return#1 : exhibit[C06] cached_order_is_sorted by(rk0_exists): rk := rk0 :: sortedByEdges(g, result)
+//@   at before return#3 : assert[C06] placed_before by(ordered, placed_nodes, deps_mirror_edges, wf): forall p int, x int :: 0 <= p && p < len(result) && 0 <= x && x < len(g.edges[result[p].Key]) ==>
+//@        placed[g.edges[result[p].Key][x]] && pos[g.edges[result[p].Key][x]] < p
+//@   at before return#3 : exhibit[C06] fresh_result_is_sorted by(placed_before, placed_nodes, wf): rk := pos :: sortedByEdges(g, result)
+//@   at before return#3 : exhibit[C06] fresh_order_is_sorted by(fresh_result_is_sorted): rk := pos :: sortedByEdges(g, resultCopy)
 //@   loop 1
 //@     invariant counts_for_nodes: depCounts != nil && (forall k NodeKey :: (k in depCounts) <==> seen[k]) && len(result) == 0 && !isnil(result)
+//@     invariant counts_are_dependency_counts: forall k NodeKey :: seen[k] ==> depCounts[k] == len(g.nodes[k].Dependencies)
 //@   loop 2
 //@     invariant queue_in_nodes: !isnil(queue) && (forall i int :: 0 <= i && i < len(queue) ==> (queue[i] in g.nodes)) && len(result) == 0 && !isnil(result)
 //@     invariant counts_for_nodes: forall k NodeKey :: (k in depCounts) <==> (k in g.nodes)
+//@     invariant counts_are_dependency_counts: forall k NodeKey :: (k in g.nodes) ==> depCounts[k] == len(g.nodes[k].Dependencies)
+//@     invariant queued: kahnQueue(g, queue, depCounts, enq, placed) && (forall k NodeKey :: !placed[k])
+//@     invariant queued_are_seen: forall k NodeKey :: enq[k] ==> seen[k]
 //@   loop 3
 //@     invariant queue_in_nodes: forall i int :: 0 <= i && i < len(queue) ==> (queue[i] in g.nodes)
 //@     invariant counts_for_nodes: forall k NodeKey :: (k in depCounts) <==> (k in g.nodes)
 //@     invariant result_in_nodes: !isnil(result) && (forall i int :: 0 <= i && i < len(result) ==> result[i] != nil && (result[i].Key in g.nodes) && g.nodes[result[i].Key] == result[i])
+//@     invariant prefix: kahnPrefix(g, S, P)
+//@     invariant mono: kahnMono(g, S)
+//@     invariant counts: kahnCounts(g, depCounts, S)
+//@     invariant discharged: kahnDischarged(g, P, D, m, placed)
+//@     invariant placed_nodes: kahnPlaced(g, result, placed, pos)
+//@     invariant queued: kahnQueue(g, queue, depCounts, enq, placed)
+//@     invariant ordered: kahnOrdered(result, pos, placed)
 //@   loop 4
 //@     invariant queue_in_nodes: forall i int :: 0 <= i && i < len(queue) ==> (queue[i] in g.nodes)
 //@     invariant counts_for_nodes: forall k NodeKey :: (k in depCounts) <==> (k in g.nodes)
 //@     invariant result_in_nodes: !isnil(result) && (forall i int :: 0 <= i && i < len(result) ==> result[i] != nil && (result[i].Key in g.nodes) && g.nodes[result[i].Key] == result[i])
-//@     invariant cur: node != nil && (current in g.nodes) && g.nodes[current] == node
+//@     invariant cur: node != nil && (current in g.nodes) && g.nodes[current] == node && placed[current]
+//@     invariant prefix by(prefix, entry_stands_for_an_occurrence, occurrence_not_yet_discharged): kahnPrefix(g, S, P)
+//@     invariant mono by(mono, prefix, entry_stands_for_an_occurrence, occurrence_not_yet_discharged): kahnMono(g, S)
+//@     invariant counts: kahnCounts(g, depCounts, S)
+//@     invariant discharged: kahnDischarged(g, P, D, m, placed)
+//@     invariant discharged_for_current: kahnCurBelow(g, P, D, current, idx)
+//@     invariant placed_nodes: kahnPlaced(g, result, placed, pos)
+//@     invariant queued by(queued, dependent_not_yet_queued, entry_stands_for_an_occurrence): kahnQueue(g, queue, depCounts, enq, placed)
 //
 //@ func NewDependencyGraphWithCapacity
 //@   ensures[C19,C05] empty_graph: result != nil && fresh(result) && wf(result) && cacheOK(result) && len(result.nodes) == 0 && (forall k NodeKey :: !(k in result.nodes) && !(k in result.edges))
